@@ -200,7 +200,9 @@ def check_rvdata_against(d, exp, t_ref, what="init"):
             with np.errstate(all="ignore"):
                 want = 1.0 / ser ** 2
             got = np.asarray(iv.to_value(1 / d.rv_err.unit ** 2), dtype=float)
-            ok = np.isclose(got, want, rtol=1e-13, atol=0, equal_nan=True) | (np.isinf(want) & np.isinf(got))
+            # (single-precision uncertainties give single-precision inverse variances)
+            rt = 1e-13 if np.asarray(d.rv_err.value).dtype.itemsize >= 8 else 1e-6
+            ok = np.isclose(got, want, rtol=rt, atol=0, equal_nan=True) | (np.isinf(want) & np.isinf(got))
             if not np.all(ok):
                 bad.append(("ivar-wrong", "ivar != 1/err^2"))
     except Exception as e:  # noqa
